@@ -6,6 +6,7 @@ import DictIO.Props.C06
 import DictIO.Props.C03
 import DictIO.Props.C01dump
 import DictIO.Props.C13api
+import DictIO.Props.C09equiv
 
 namespace DictIO.C03incl
 open DictIO DictIO.C12 DictIO.C12.Incl DictIO.C12WI
@@ -537,6 +538,1031 @@ theorem write (h : RdOK s hdr ids names D) (hn : NamesOK names) :
   exact write_incl_top (h.strip_ok.wiok hn)
 
 end RdOK
+
+/-! ### the included files: plain comment-free documents -/
+
+/-- an included file: a comment-free document in some admissible layout -/
+structure IncDoc where
+  es : SrcEntries
+  gaps : List Str
+  tail : Str
+
+def IncDoc.text (d : IncDoc) : Str := spreadS (srcToksEs d.es) d.gaps d.tail
+def IncDoc.data (d : IncDoc) : Entries := denSrcEs d.es []
+
+/-- the hypotheses of `C02_layout_tolerant` on an included document; its meaning lies in the value domain of C01 -/
+structure IncDocOK (d : IncDoc) : Prop where
+  wf : SrcWFEs 1 d.es = true
+  gaps : GapsOKS (srcToksEs d.es) d.gaps = true
+  tail : d.tail.all isWs = true
+  nq : C02.countQuotedEs d.es ≤ Gen.counterLimit + 1
+  docKeys : C02.DocKeysAbsent d.es
+  dom : DomC01 .native d.data = true
+
+/-- the file named `name` in a directive of a file in directory `dir` (as spelled) exists and holds the document `d` -/
+structure IncAt (fs : FS) (dir : Comps) (name : Str) (d : IncDoc) : Prop where
+  notXml : isXmlPath (spellJoin dir name) = false
+  notJson : isJsonPath (spellJoin dir name) = false
+  get : fs.get (resolveSpelled (spellJoin dir name)) = some (.native d.text)
+  ok : IncDocOK d
+
+theorem parseFile_inc {fs : FS} {dir : Comps} {name : Str} {d : IncDoc} (h : IncAt fs dir name d) {c : Counter}
+    (hc : C13.ValidCounter Gen.counterLimit c) :
+    ∃ c', C13.ValidCounter Gen.counterLimit c' ∧
+      parseFile fs true c (spellJoin dir name) = .ok ({ data := d.data }, c') := by
+  obtain ⟨c', hv, hp⟩ := C03.read_layout true (pathStr (spellJoin dir name).dropLast) h.ok.wf h.ok.gaps h.ok.tail hc
+    h.ok.nq h.ok.docKeys
+  refine ⟨c', hv, ?_⟩
+  have hp' : parseNative true (pathStr (spellJoin dir name).dropLast) c d.text = .ok ({ data := denSrcEs d.es [] }, c') := hp
+  simp only [parseFile, h.notXml, h.get, h.notJson, hp']
+  rfl
+
+/-- the included files parsed one after the other (`incs`: file name and document, in the order of the table) -/
+theorem parseIncls_ok {fs : FS} {dir : Comps} : ∀ (l : Tbl InclEntry) (incs : List (Str × IncDoc)) (c : Counter),
+    l.map (·.2.file) = incs.map (·.1) → (∀ q ∈ incs, IncAt fs dir q.1 q.2) → C13.ValidCounter Gen.counterLimit c →
+    ∃ c', C13.ValidCounter Gen.counterLimit c' ∧
+      C06.parseIncls fs true dir l c = .ok (incs.map (fun q => ({ data := q.2.data } : SD)), c')
+  | [], [], c, _, _, hc => ⟨c, hc, rfl⟩
+  | [], _ :: _, _, h, _, _ => by simp at h
+  | _ :: _, [], _, h, _, _ => by simp at h
+  | e :: l, q :: incs, c, h, hall, hc => by
+    simp only [List.map_cons, List.cons.injEq] at h
+    obtain ⟨c1, hv1, h1⟩ := parseFile_inc (h.1 ▸ hall q List.mem_cons_self) hc
+    obtain ⟨c2, hv2, h2⟩ := parseIncls_ok l incs c1 h.2 (fun q' hq' => hall q' (List.mem_cons_of_mem _ hq')) hv1
+    refine ⟨c2, hv2, ?_⟩
+    simp only [C06.parseIncls, h1, h2, List.map_cons]
+
+/-- `temp`: the data of the included files merged in order -/
+def mergeDatas (ds : List Entries) (t : Entries) : Entries := ds.foldl (fun t d => mergeD true [] t d) t
+
+theorem merge_plain {t d : Entries} (ht : DomC01 .native t = true) (hnt : normEs t = t) (hd : DomC01 .native d = true)
+    (hnd : normEs d = d) :
+    ({ data := t } : SD).merge (.sd { data := d }) = { data := mergeD true [] t d } := by
+  have hdom := domC01_mergeD [] true ht hd
+  have hinv := C01.norm_invariants hdom
+  rw [norm_mergeD [] true t d hnt hnd] at hinv
+  rw [C07.merge_eq _ _ hinv.2 hinv.1]
+  rfl
+
+theorem mergeAll_datas : ∀ (ds : List Entries) (t : Entries), (∀ d ∈ ds, DomC01 .native d = true ∧ normEs d = d) →
+    DomC01 .native t = true → normEs t = t →
+    C06.mergeAll (ds.map fun d => ({ data := d } : SD)) { data := t } = { data := mergeDatas ds t } ∧
+      DomC01 .native (mergeDatas ds t) = true ∧ normEs (mergeDatas ds t) = mergeDatas ds t
+  | [], t, _, ht, hn => ⟨rfl, ht, hn⟩
+  | d :: ds, t, h, ht, hn => by
+    obtain ⟨hd, hnd⟩ := h d List.mem_cons_self
+    have ih := mergeAll_datas ds (mergeD true [] t d) (fun d' hd' => h d' (List.mem_cons_of_mem _ hd'))
+      (domC01_mergeD [] true ht hd) (norm_mergeD [] true t d hn hnd)
+    simp only [C06.mergeAll, List.map_cons, List.foldl_cons, merge_plain ht hn hd hnd, mergeDatas] at ih ⊢
+    exact ih
+
+/-- what the included files contribute -/
+def tempOf (incs : List (Str × IncDoc)) : Entries := mergeDatas (incs.map fun q => q.2.data) []
+
+theorem temp_ok {fs : FS} {dir : Comps} {incs : List (Str × IncDoc)} (hall : ∀ q ∈ incs, IncAt fs dir q.1 q.2) :
+    C06.mergeAll (incs.map fun q => ({ data := q.2.data } : SD)) {} = { data := tempOf incs } ∧
+      DomC01 .native (tempOf incs) = true ∧ normEs (tempOf incs) = tempOf incs := by
+  have := mergeAll_datas (incs.map fun q => q.2.data) [] (by
+    intro d hd
+    obtain ⟨q, hq, rfl⟩ := List.mem_map.mp hd
+    exact ⟨(hall q hq).ok.dom, C03.norm_den (hall q hq).ok.wf⟩) (by decide) rfl
+  rw [List.map_map] at this
+  exact this
+
+/-! ### `DictReader.read` on a file whose parse has the shape `RdOK` and whose includes are plain files -/
+
+theorem readFile_rd (ev : Str → EvalResult) {fs : FS} {p : Comps} {c c1 : Counter} {s : SD} {hdr : Bool} {ids : List Nat}
+    {names : List Str} {D : Entries} (h : RdOK s hdr ids names D) (hpf : parseFile fs true c p = .ok (s, c1))
+    (hc1 : C13.ValidCounter Gen.counterLimit c1) {incs : List (Str × IncDoc)} (hnames : names = incs.map (·.1))
+    (hall : ∀ q ∈ incs, IncAt fs p.dropLast q.1 q.2) :
+    ∃ c2, C13.ValidCounter Gen.counterLimit c2 ∧
+      readFile ev fs {} c p = .ok (.ok { s with data := mergeD true [] s.data (tempOf incs) } c2) ∧
+      RdOK { s with data := mergeD true [] s.data (tempOf incs) } hdr ids names (mergeD true [] D (tempOf incs)) := by
+  obtain ⟨c2, hv2, hpi⟩ := parseIncls_ok (fs := fs) (dir := p.dropLast) s.incl incs c1 (h.tblFiles.trans hnames) hall hc1
+  obtain ⟨htemp, hdomT, hnormT⟩ := temp_ok hall
+  obtain ⟨hm, h'⟩ := h.merge hdomT hnormT
+  have hlive : C06.Live fs [] p.dropLast s.incl := by
+    intro e he
+    have hmem : e.2.file ∈ incs.map (·.1) := by
+      rw [← hnames, ← h.tblFiles]; exact List.mem_map_of_mem (f := (·.2.file)) he
+    obtain ⟨q, hq, hqe⟩ := List.mem_map.mp hmem
+    refine ⟨rfl, ?_⟩
+    rw [← hqe, (hall q hq).get]; rfl
+  have hrec := C06.C06_flat fs true fs.length [] s p.dropLast c1 hlive hpi (by
+    intro i hi
+    obtain ⟨q, _, rfl⟩ := List.mem_map.mp hi
+    rfl)
+  rw [htemp, hm] at hrec
+  refine ⟨c2, hv2, ?_, h'⟩
+  have hmi : mergeIncludes fs true s p.dropLast c1 = .ok ({ s with data := mergeD true [] s.data (tempOf incs) }, c2) := by
+    simp only [mergeIncludes, hrec, bind, Except.bind, pure, Except.pure, h'.merge_self]
+  have hev := C01.evalExpressions_noexpr ev { s with data := mergeD true [] s.data (tempOf incs) } h'.exprs
+  simp only [readFile, hpf, bind, Except.bind, pure, Except.pure, if_true, hmi, hev]
+  rfl
+
+/-! ### the shape of the first parse: a document with top-level directives (domain of `C12_read_included`, `HWI`) -/
+
+theorem part3 {A B C X Y : Entries} (h : A ++ B ++ C = X ++ Y) (hA : ∀ e ∈ A, pB e.1 = true)
+    (hB : ∀ e ∈ B, pB e.1 = false ∧ pI e.1 = true) (hC : ∀ e ∈ C, pB e.1 = false ∧ pI e.1 = false)
+    (hX : ∀ e ∈ X, pB e.1 = false ∧ pI e.1 = true) (hY : ∀ e ∈ Y, pB e.1 = false ∧ pI e.1 = false) :
+    A = [] ∧ B = X ∧ C = Y := by
+  have key : ∀ q : Key × Val → Bool, A.filter q ++ B.filter q ++ C.filter q = X.filter q ++ Y.filter q := by
+    intro q
+    have := congrArg (List.filter q) h
+    simpa only [List.filter_append] using this
+  have self : ∀ (q : Key × Val → Bool) (l : Entries), (∀ e ∈ l, q e = true) → l.filter q = l :=
+    fun q l h => List.filter_eq_self.mpr h
+  have nil : ∀ (q : Key × Val → Bool) (l : Entries), (∀ e ∈ l, q e = false) → l.filter q = [] :=
+    fun q l h => List.filter_eq_nil_iff.mpr (fun e he => by simp [h e he])
+  have k1 := key (fun e => pB e.1)
+  rw [self _ A hA, nil _ B (fun e he => (hB e he).1), nil _ C (fun e he => (hC e he).1), nil _ X (fun e he => (hX e he).1),
+    nil _ Y (fun e he => (hY e he).1)] at k1
+  have k2 := key (fun e => !pB e.1 && pI e.1)
+  rw [nil _ A (fun e he => by simp [hA e he]), self _ B (fun e he => by simp [(hB e he).1, (hB e he).2]),
+    nil _ C (fun e he => by simp [(hC e he).1, (hC e he).2]), self _ X (fun e he => by simp [(hX e he).1, (hX e he).2]),
+    nil _ Y (fun e he => by simp [(hY e he).1, (hY e he).2])] at k2
+  have k3 := key (fun e => !pB e.1 && !pI e.1)
+  rw [nil _ A (fun e he => by simp [hA e he]), nil _ B (fun e he => by simp [(hB e he).1, (hB e he).2]),
+    self _ C (fun e he => by simp [(hC e he).1, (hC e he).2]), nil _ X (fun e he => by simp [(hX e he).1, (hX e he).2]),
+    self _ Y (fun e he => by simp [(hY e he).1, (hY e he).2])] at k3
+  exact ⟨by simpa using k1, by simpa using k2, by simpa using k3⟩
+
+theorem split_of_hoist {es X Y : Entries} (h : hoistPlaceholders es = X ++ Y)
+    (hX : ∀ e ∈ X, pB e.1 = false ∧ pI e.1 = true) (hY : ∀ e ∈ Y, pB e.1 = false ∧ pI e.1 = false) :
+    es.filter (fun e => pB e.1) = [] ∧ es.filter (fun e => !pB e.1 && pI e.1) = X ∧
+      es.filter (fun e => !pB e.1 && !pI e.1) = Y := by
+  have h0 : List.filter (fun (e : Key × Val) => pB e.1) es ++ List.filter (fun (e : Key × Val) => !pB e.1 && pI e.1) es ++
+      List.filter (fun (e : Key × Val) => !pB e.1 && !pI e.1) es = X ++ Y := by
+    rw [← h, C12W.hoist_def]; rfl
+  exact part3 h0 (fun e he => (List.mem_filter.mp he).2)
+    (fun e he => by simpa using (List.mem_filter.mp he).2) (fun e he => by simpa using (List.mem_filter.mp he).2) hX hY
+
+/-- **the first parse has the shape `RdOK`** (no header): what `C12_read_included` returns for a document of `HWI` whose
+    directives name pairwise distinct files -/
+theorem rd_first (dir : Str) {c : Counter} {items : List IItem} (H : HWI c items) (hnd : (namesOf items).Nodup) :
+    RdOK (denI dir c items) false (alloc Gen.counterLimit (inclsItems items).length c) (namesOf items)
+      (denSrcEs (plainIItems items) []) := by
+  have W := wiok_denI dir H
+  obtain ⟨t1, t2, t3, t4, t5⟩ := label_top dir items 1
+    { c := { counter := c }, icounter := C02.adv Gen.counterLimit (countLineItems items) c } H.top H.wf
+  have hadv : C02.adv Gen.counterLimit (countLineItems items) c = c := by rw [t5]; rfl
+  rw [hadv] at t1
+  have e0 : labelIItems dir { c := { counter := c }, icounter := c } items = labelI dir c items := by
+    show _ = labelIItems dir { c := { counter := c }, icounter := C02.adv Gen.counterLimit (countLineItems items) c } items
+    rw [hadv]
+  rw [e0] at t1
+  have htab := C12_incl_table (items := items) dir c H.hc H.nIncl
+  rw [hadv] at htab
+  have hinj : TblInj (labelI dir c items).1.incl := by
+    rw [htab]
+    refine tblInj_zip _ _ (nodup_of_map (fun e : InclEntry => e.directive) _ ?_)
+    rw [List.map_map]
+    exact H.dist
+  have hden : denI dir c items =
+      ({ data := denPEs (labelI dir c items).2 [], lineC := [], blockC := [], incl := (labelI dir c items).1.incl } : SD) := by
+    have e : denI dir c items =
+        ({ data := denPEs (labelI dir c items).2 [], lineC := (labelI dir c items).1.c.lineC,
+           blockC := (labelI dir c items).1.c.blockC, incl := (labelI dir c items).1.incl } : SD).clean := rfl
+    rw [e, t1]
+    exact clean_noC _ rfl rfl hinj (denP_nodup _ [] C07.nodupV_nil) (phOK_I dir items 1 _ [] H.wf (by simp only [PhOKEs]))
+  obtain ⟨f1, f2, f3⟩ := split_of_hoist W.hoist (by
+      intro e he
+      obtain ⟨i, hi, rfl⟩ := List.mem_map.mp he
+      exact p_inclPh (W.idsle i hi)) (fun e he => ph_split (C12.dom_noPh_keys W.dom e.1 (List.mem_map_of_mem he)))
+  have htab' : (labelI dir c items).1.incl = List.zip (alloc Gen.counterLimit (inclsItems items).length c)
+      ((inclsItems items).map fun p => inclEntry dir p.1 p.2) := htab
+  have hlen : (alloc Gen.counterLimit (inclsItems items).length c).length =
+      ((inclsItems items).map fun p => inclEntry dir p.1 p.2).length := by
+    simp [C13.alloc_length]
+  exact {
+    exprs := by rw [hden]
+    lineC := W.lineC
+    blockC := W.blockC
+    fB := f1
+    fI := f2
+    fR := f3
+    nodup := by rw [hden]; exact (denP_nodup _ [] C07.nodupV_nil).1
+    idsle := W.idsle
+    idsnd := C13.alloc_nodup H.nIncl H.hc
+    tblIds := by
+      rw [hden]
+      show (labelI dir c items).1.incl.map (·.1) = _
+      rw [htab']
+      exact List.map_fst_zip (Nat.le_of_eq hlen)
+    tblFiles := by
+      rw [hden]
+      show (labelI dir c items).1.incl.map (·.2.file) = _
+      rw [htab']
+      have e1 : ∀ l : List (Nat × InclEntry), l.map (·.2.file) = (l.map Prod.snd).map (fun e : InclEntry => e.file) :=
+        fun l => by rw [List.map_map]; rfl
+      rw [e1, List.map_snd_zip (Nat.le_of_eq hlen.symm), List.map_map]
+      rfl
+    namesnd := hnd
+    dom := H.dom
+    norm := C03.norm_den t4 }
+
+/-- `parse_file` rewrites the `path` entries of the include table; the shape does not depend on them -/
+theorem RdOK.pathmap {s : SD} {hdr : Bool} {ids : List Nat} {names : List Str} {D : Entries} (h : RdOK s hdr ids names D)
+    (f : InclEntry → Str) :
+    RdOK { s with incl := s.incl.map fun e => (e.1, { e.2 with path := f e.2 }) } hdr ids names D where
+  exprs := h.exprs
+  lineC := h.lineC
+  blockC := h.blockC
+  fB := h.fB
+  fI := h.fI
+  fR := h.fR
+  nodup := h.nodup
+  idsle := h.idsle
+  idsnd := h.idsnd
+  tblIds := by
+    show (s.incl.map _).map _ = _
+    rw [List.map_map]; exact h.tblIds
+  tblFiles := by
+    show (s.incl.map _).map _ = _
+    rw [List.map_map]; exact h.tblFiles
+  namesnd := h.namesnd
+  dom := h.dom
+  norm := h.norm
+
+/-! ### the shape of the second parse: the written document `writtenI names D` (header, directives, entries) -/
+
+mutual
+  theorem plainV_emb : ∀ (v : Src), C12WI.plainV (embV v) = true
+    | .lit l => by simp only [embV, C12WI.plainV]
+    | .dict es => by simp only [embV, C12WI.plainV, plainItems_emb es]
+    | .list xs => by simp only [embV, C12WI.plainV]
+  theorem plainItems_emb : ∀ (es : SrcEntries), C12WI.plainItems (embEs es) = true
+    | [] => by simp only [embEs, C12WI.plainItems]
+    | (k, v) :: r => by simp only [embEs, C12WI.plainItems, plainV_emb v, plainItems_emb r, Bool.and_self]
+end
+
+/-- the labelling of directives followed by a plain document -/
+theorem label_incls_plain (dir : Str) {R : List IItem} (hR : C12WI.plainItems R = true) : ∀ (names : List Str) (st : ILabelSt),
+    (labelIItems dir st ((names.map fun n => IItem.incl (qOf n) n) ++ R)).2 =
+      (alloc Gen.counterLimit names.length st.icounter).map phSrc ++ plainIItems R ∧
+    (labelIItems dir st ((names.map fun n => IItem.incl (qOf n) n) ++ R)).1.c = st.c ∧
+    countLineItems ((names.map fun n => IItem.incl (qOf n) n) ++ R) = 0
+  | [], st => by
+    obtain ⟨h1, _⟩ := label_plainI dir R st hR
+    simp only [List.map_nil, List.nil_append, h1, List.length_nil, alloc, countLine_plainI R hR, and_self]
+  | n :: names, st => by
+    obtain ⟨i1, i2, i3⟩ := label_incls_plain dir hR names
+      { st with icounter := (Counter.next Gen.counterLimit st.icounter).2,
+                incl := st.incl.set (Counter.next Gen.counterLimit st.icounter).1 (inclEntry dir (qOf n) n) }
+    simp only [List.map_cons, List.cons_append, labelIItems, List.length_cons, C13.alloc_succ, i1, i2, countLineItems, i3,
+      phSrc, and_self]
+
+theorem label_written (dir : Str) (c : Counter) (names : List Str) (D : Entries) :
+    (labelI dir c (writtenI names D)).2 =
+      (blockPh 0, .lit (.bare (blockPh 0))) ::
+        ((alloc Gen.counterLimit names.length c).map phSrc ++ srcOfEs .native D) ∧
+    (labelI dir c (writtenI names D)).1.c.lineC = [] ∧
+    (labelI dir c (writtenI names D)).1.c.blockC = [(0, hdrComment)] ∧
+    countLineItems (writtenI names D) = 0 := by
+  have hR := plainItems_emb (srcOfEs .native D)
+  have hcl : countLineItems (writtenI names D) = 0 := by
+    simp only [writtenI, List.cons_append, countLineItems]
+    exact (label_incls_plain dir hR names { c := { counter := c }, icounter := c }).2.2
+  obtain ⟨i1, i2, _⟩ := label_incls_plain dir hR names
+    { c := { counter := c, blockC := [(0, '/' :: '*' :: (C12.hdrBody ++ ['*', '/']))] }, icounter := c }
+  have e : labelI dir c (writtenI names D) =
+      labelIItems dir { c := { counter := c }, icounter := c } (writtenI names D) := by
+    show labelIItems dir { c := { counter := c }, icounter := C02.adv Gen.counterLimit (countLineItems (writtenI names D)) c } _ = _
+    rw [hcl]; rfl
+  rw [e]
+  simp only [writtenI, List.cons_append, labelIItems, List.length_nil, List.nil_append]
+  refine ⟨?_, ?_, ?_, hcl⟩
+  · rw [i1, plain_emb]
+  · rw [i2]
+  · rw [i2, hdrComment_shape]
+
+/-- `denI` before `_clean` -/
+def litI (dir : Str) (c : Counter) (items : List IItem) : SD :=
+  { data := denPEs (labelI dir c items).2 [], lineC := (labelI dir c items).1.c.lineC,
+    blockC := (labelI dir c items).1.c.blockC, incl := (labelI dir c items).1.incl }
+
+theorem denI_lit (dir : Str) (c : Counter) (items : List IItem) : denI dir c items = (litI dir c items).clean := rfl
+
+/-- **the second parse has the shape `RdOK`** (with header): what `C12_read_included` returns for the written document -/
+theorem rd_second (dir : Str) {c : Counter} {names : List Str} {D : Entries} (hc : C13.ValidCounter Gen.counterLimit c)
+    (hlen : names.length ≤ Gen.counterLimit + 1) (hnd : names.Nodup) (hdom : DomC01 .native D = true)
+    (hnorm : normEs D = D) :
+    RdOK (denI dir c (writtenI names D)) true (alloc Gen.counterLimit names.length c) names D := by
+  obtain ⟨hE, hL, hBk, hcl⟩ := label_written dir c names D
+  have hidsle : ∀ i ∈ alloc Gen.counterLimit names.length c, i ≤ 999999 := fun i hi => C13.alloc_le hc _ i hi
+  have hidsnd : (alloc Gen.counterLimit names.length c).Nodup := C13.alloc_nodup hlen hc
+  have hinc : inclsItems (writtenI names D) = names.map fun n => (qOf n, n) := incls_writtenI names D
+  have htab := C12_incl_table (items := writtenI names D) dir c hc (by rw [hinc, List.length_map]; exact hlen)
+  rw [hcl, hinc, List.length_map, List.map_map] at htab
+  have htab' : (labelI dir c (writtenI names D)).1.incl =
+      List.zip (alloc Gen.counterLimit names.length c) (names.map fun n => inclEntry dir (qOf n) n) := htab
+  have hlen2 : (alloc Gen.counterLimit names.length c).length = (names.map fun n => inclEntry dir (qOf n) n).length := by
+    simp [C13.alloc_length]
+  obtain ⟨hwf, hden, _⟩ := C01.C01_writer hdom
+  -- the classes of the labelled entries
+  have hBtok : isPhTok (blockPh 0) = true := (blockPh_tok 0).2
+  have hBp : pB (.str (blockPh 0)) = true := hdrPh_block
+  have hStok : ∀ e ∈ srcOfEs .native D, isPhTok e.1 = false ∧ isSrcWord e.1 = true := fun e he =>
+    ⟨(C02.srcWord_facts (C02.Main.srcWF_keys hwf e he)).2.1, C02.Main.srcWF_keys hwf e he⟩
+  have hcls : ∀ e ∈ (labelI dir c (writtenI names D)).2,
+      (isPhTok e.1 = true ∧ pB (.str e.1) = true) ∨ (isPhTok e.1 = true ∧ pB (.str e.1) = false ∧ pI (.str e.1) = true) ∨
+        (isPhTok e.1 = false ∧ isSrcWord e.1 = true) := by
+    intro e he
+    rw [hE] at he
+    simp only [List.mem_cons, List.mem_append, List.mem_map] at he
+    rcases he with rfl | ⟨i, hi, rfl⟩ | he
+    · exact Or.inl ⟨hBtok, hBp⟩
+    · exact Or.inr (Or.inl ⟨(inclPh_tok i).2, p_inclPh (hidsle i hi)⟩)
+    · exact Or.inr (Or.inr (hStok e he))
+  have filt : ∀ f : Str × Src → Bool, (labelI dir c (writtenI names D)).2.filter f =
+      (if f (blockPh 0, .lit (.bare (blockPh 0))) then [(blockPh 0, .lit (.bare (blockPh 0)))] else []) ++
+        (((alloc Gen.counterLimit names.length c).map phSrc).filter f ++ (srcOfEs .native D).filter f) := by
+    intro f
+    rw [hE, List.filter_cons, List.filter_append]
+    split <;> rfl
+  have self : ∀ (q : Str × Src → Bool) (l : SrcEntries), (∀ e ∈ l, q e = true) → l.filter q = l :=
+    fun q l h => List.filter_eq_self.mpr h
+  have nil : ∀ (q : Str × Src → Bool) (l : SrcEntries), (∀ e ∈ l, q e = false) → l.filter q = [] :=
+    fun q l h => List.filter_eq_nil_iff.mpr (fun e he => by simp [h e he])
+  have hI1 : ∀ e ∈ (alloc Gen.counterLimit names.length c).map phSrc,
+      isPhTok e.1 = true ∧ pB (.str e.1) = false ∧ pI (.str e.1) = true := by
+    intro e he
+    obtain ⟨i, hi, rfl⟩ := List.mem_map.mp he
+    exact ⟨(inclPh_tok i).2, p_inclPh (hidsle i hi)⟩
+  have hB := filter_denPEs pB (fun k => isPhTok k && pB (.str k)) (labelI dir c (writtenI names D)).2 [] (by
+    intro e he
+    refine ⟨fun hp => by simp [hp], fun hp key hk => ?_⟩
+    rcases hcls e he with h | h | h
+    · rw [h.1] at hp; cases hp
+    · rw [h.1] at hp; cases hp
+    · rw [(p_typed h.2 hk).1, hp]; rfl)
+  have hI := filter_denPEs (fun k => !pB k && pI k) (fun k => isPhTok k && (!pB (.str k) && pI (.str k)))
+    (labelI dir c (writtenI names D)).2 [] (by
+    intro e he
+    refine ⟨fun hp => by simp [hp], fun hp key hk => ?_⟩
+    rcases hcls e he with h | h | h
+    · rw [h.1] at hp; cases hp
+    · rw [h.1] at hp; cases hp
+    · rw [(p_typed h.2 hk).1, (p_typed h.2 hk).2, hp]; rfl)
+  have hR := filter_denPEs (fun k => !pB k && !pI k) (fun k => !isPhTok k) (labelI dir c (writtenI names D)).2 [] (by
+    intro e he
+    rcases hcls e he with h | h | h
+    · exact ⟨fun _ => (by rw [h.1, h.2]; rfl), fun hp => (by rw [h.1] at hp; cases hp)⟩
+    · exact ⟨fun _ => (by rw [h.1, h.2.1, h.2.2]; rfl), fun hp => (by rw [h.1] at hp; cases hp)⟩
+    · exact ⟨fun hp => (by rw [h.1] at hp; cases hp), fun hp key hk => (by
+        rw [(p_typed h.2 hk).1, (p_typed h.2 hk).2, hp]; rfl)⟩)
+  simp only [List.filter_nil] at hB hI hR
+  rw [filt, nil _ _ (fun e he => by simp [(hI1 e he).2.1]), nil _ _ (fun e he => by simp [(hStok e he).1])] at hB
+  rw [filt, self _ _ (fun e he => by simp [(hI1 e he).1, (hI1 e he).2.1, (hI1 e he).2.2]),
+    nil _ _ (fun e he => by simp [(hStok e he).1])] at hI
+  rw [filt, nil _ _ (fun e he => by simp [(hI1 e he).1]), self _ _ (fun e he => by simp [(hStok e he).1])] at hR
+  simp only [hBtok, hBp, Bool.and_self, if_true, Bool.not_true, Bool.false_and, Bool.and_false, Bool.false_eq_true, if_false,
+    List.nil_append, List.append_nil] at hB hI hR
+  rw [C12.denPEs_cons_ph hBtok] at hB
+  rw [denPEs_phs _ [] hidsle hidsnd (by intro i _ hm; cases hm)] at hI
+  rw [C12.denPEs_plain _ 1 [] hwf, hden, hnorm] at hR
+  have hL0 : RdOK (litI dir c (writtenI names D)) true (alloc Gen.counterLimit names.length c) names D := {
+    exprs := rfl
+    lineC := hL
+    blockC := hBk
+    fB := hB
+    fI := by
+      show List.filter _ (denPEs (labelI dir c (writtenI names D)).2 []) = _
+      rw [hI]; rfl
+    fR := hR
+    nodup := (denP_nodup _ [] C07.nodupV_nil).1
+    idsle := hidsle
+    idsnd := hidsnd
+    tblIds := by
+      show (labelI dir c (writtenI names D)).1.incl.map (·.1) = _
+      rw [htab']
+      exact List.map_fst_zip (Nat.le_of_eq hlen2)
+    tblFiles := by
+      show (labelI dir c (writtenI names D)).1.incl.map (·.2.file) = _
+      rw [htab']
+      have e1 : ∀ l : List (Nat × InclEntry), l.map (·.2.file) = (l.map Prod.snd).map (fun e : InclEntry => e.file) :=
+        fun l => by rw [List.map_map]; rfl
+      rw [e1, List.map_snd_zip (Nat.le_of_eq hlen2.symm), List.map_map]
+      have e2 : ∀ l : List Str, l.map ((fun e : InclEntry => e.file) ∘ fun n => inclEntry dir (qOf n) n) = l := by
+        intro l
+        induction l with
+        | nil => rfl
+        | cons a l ih => rw [List.map_cons, ih]; rfl
+      exact e2 names
+    namesnd := hnd
+    dom := hdom
+    norm := hnorm }
+  rw [denI_lit, hL0.clean]
+  exact hL0
+
+/-! ### the writer's re-typing leaves such an SDict alone -/
+
+theorem not_anyWord_I (r : Str) : ¬ C04.IsAnyWord ('I' :: r) := by
+  obtain ⟨r', h⟩ := C02.strip_cons (c := 'I') (by decide) r
+  have hl : asciiLower 'I' = 'i' := by decide
+  simp only [C04.IsAnyWord, C04.IsWord, h, List.map_cons, hl]
+  rintro (h | h | h | h | h | h) <;> simp at h
+
+theorem parseValue_inclPh (i : Nat) : parseValue (inclPh i) = .str (inclPh i) := by
+  have hqf : C04.QF (inclPh i) := fun c hc => (inclPh_facts i c hc).1
+  have hq := C04.removeQuotes_of_qf hqf
+  have hne : inclPh i ≠ [] := by rw [inclPh_cons]; simp
+  have hs : ¬ C04.IsSpecial (inclPh i) := by
+    rw [inclPh_cons]; simp [C04.IsSpecial]
+  have hint : ¬ C04.IsIntLit (inclPh i) := by
+    rw [← C04.isIntLit_iff, inclPh_cons]
+    have : isDigit 'I' = false := by decide
+    simp [isIntLit, dropSign, spanDigits, this]
+  have hfl : ¬ C04.IsFloatLit (inclPh i) := by
+    rw [← C04.isFloatExpLit_iff, inclPh_cons]
+    have : isDigit 'I' = false := by decide
+    simp [isFloatExpLit, dropSign, dropMantissa, spanDigits, this]
+  have hw : ¬ C04.IsAnyWord (inclPh i) := by rw [inclPh_cons]; exact not_anyWord_I _
+  rw [C04.parseValue_word ⟨⟨by rw [hq]; exact hne, hs⟩, hint, hfl⟩, C04.boolNoneWord_other hw, hq]
+
+theorem normEs_fix : ∀ {es : Entries}, (∀ e ∈ es, normV e.2 = e.2) → normEs es = es
+  | [], _ => rfl
+  | (k, v) :: es, h => by
+    simp only [normEs, h (k, v) List.mem_cons_self, normEs_fix fun e he => h e (List.mem_cons_of_mem _ he)]
+
+theorem norm_mem {e : Key × Val} : ∀ {es : Entries}, normEs es = es → e ∈ es → normV e.2 = e.2
+  | (k, v) :: es, hn, he => by
+    simp only [normEs, List.cons.injEq, Prod.mk.injEq, true_and] at hn
+    rcases List.mem_cons.mp he with rfl | he
+    · exact hn.1
+    · exact norm_mem hn.2 he
+
+theorem RdOK.normData {s : SD} {hdr : Bool} {ids : List Nat} {names : List Str} {D : Entries}
+    (h : RdOK s hdr ids names D) : normEs s.data = s.data := by
+  refine normEs_fix fun e he => ?_
+  rcases h.entry_cases e he with ⟨_, rfl⟩ | ⟨i, _, rfl⟩ | hD
+  · show Val.leaf (normScalar (.str hdrPh)) = _
+    have : normScalar (.str hdrPh) = .str hdrPh := by decide +kernel
+    rw [this]; rfl
+  · show Val.leaf (normScalar (.str (inclPh i))) = _
+    simp only [normScalar, parseValue_inclPh]; rfl
+  · exact norm_mem h.norm hD
+
+/-! ### writing and re-reading, on files -/
+
+/-- the text written for an SDict of shape `RdOK … names D` -/
+def textOf (names : List Str) (D : Entries) : Str :=
+  nativeHeader ++ ((names.map dirLine).flatMap (· ++ ['\n']) ++ fmtPlain .native D)
+
+/-- `DictWriter.write(sd, target, mode='w')` for an SDict of shape `RdOK`, native target -/
+theorem writeText_rd (ev : Str → EvalResult) (fs : FS) {t : Comps} {s : SD} {hdr : Bool} {ids : List Nat} {names : List Str}
+    {D : Entries} (h : RdOK s hdr ids names D) (hn : NamesOK names) (ht : flavorOfPath t = some .native) (c : Counter) :
+    writeText ev fs t ['w'] false (.sd s) c = .ok (textOf names D, c) := by
+  have hre : (Arg.sd s).retype = .sd s := by
+    show Arg.sd { s with data := normEs s.data } = _
+    rw [h.normData]
+  have hf : fmtArg .native (.sd s) = some (textOf names D) := h.write hn
+  have hm : (['w'] == ['a']) = false := by decide
+  simp only [writeText, ht, hre, Bool.false_eq_true, if_false, hf, hm]
+  cases fs.get (resolveSpelled t) <;> rfl
+
+/-- names the reader reads back from the written directive -/
+def NamesRd (names : List Str) : Prop := ∀ n ∈ names, isInfix ['/', '/'] n = false ∧ ∀ c ∈ n, isLineBreak c = false
+
+/-- **`parse_file` on the written file**: the document `writtenI names D`, of shape `RdOK` with header -/
+theorem parse_written {fs : FS} {p : Comps} {s : SD} {hdr : Bool} {ids : List Nat} {names : List Str} {D : Entries}
+    (h : RdOK s hdr ids names D) (hn : NamesOK names) (hr : NamesRd names)
+    (hget : fs.get (resolveSpelled p) = some (.native (textOf names D)))
+    (hx : isXmlPath p = false) (hj : isJsonPath p = false)
+    (hq : C02.countQuotedEs (srcOfEs .native D) ≤ Gen.counterLimit + 1) (hk : C02.DocKeysAbsent (srcOfEs .native D))
+    (hlen : names.length ≤ Gen.counterLimit + 1) {c : Counter} (hc : C13.ValidCounter Gen.counterLimit c) :
+    ∃ s2 c1, C13.ValidCounter Gen.counterLimit c1 ∧ parseFile fs true c p = .ok (s2, c1) ∧
+      RdOK s2 true (alloc Gen.counterLimit names.length c) names D := by
+  obtain ⟨gaps, tail, hw, hg, ht⟩ := write_incl_layout (h.strip_ok.wiok hn)
+  rw [← h.fmt_strip, h.write hn] at hw
+  have htext : textOf names D = spreadC (itoksItems (writtenI names D)) ([] :: gaps) tail := Option.some.inj hw
+  have hwf := wf_writtenI h.dom (fun n hm => inclName_qOf (hr n hm).1 (hr n hm).2)
+  have hread := C12_read_included (pathStr p.dropLast) c hwf hg (fun _ => ht) hc (by rw [plain_writtenI]; exact hq)
+    (by rw [plain_writtenI]; exact hk)
+  have e : spreadC (itoksItems (writtenI names D)) (['\n'] :: gaps) tail =
+      '\n' :: spreadC (itoksItems (writtenI names D)) ([] :: gaps) tail := by
+    rw [itoks_writtenI]
+    simp [spreadC, spread]
+  rw [e, C12W.parseNative_nl, ← htext] at hread
+  have hv : C13.ValidCounter Gen.counterLimit
+      (C02.adv Gen.counterLimit (C02.countQuotedEs (plainIItems (writtenI names D)))
+        (labelI (pathStr p.dropLast) c (writtenI names D)).1.icounter) :=
+    C02.adv_valid _ (icounter_labelII _ _ _ (C02.adv_valid _ hc))
+  refine ⟨_, _, hv, ?_, (rd_second (pathStr p.dropLast) hc hlen h.namesnd h.dom h.norm).pathmap
+    (fun e => pathStr (spellJoin p.dropLast e.file))⟩
+  simp only [parseFile, hx, hget, hj, hread]
+  rfl
+
+/-- one `DictParser.parse(p, mode='w')` in terms of its read and its write -/
+theorem parse_step (ev : Str → EvalResult) {fs : FS} {c c' c'' : Counter} {p : Comps} {b : FileBody} {sd : SD} {t : Str}
+    (hget : fs.get (resolveSpelled p) = some b) (hread : readFile ev fs {} c p = .ok (.ok sd c'))
+    (hwrite : writeText ev fs (parseTarget p [] none) ['w'] false (.sd sd) c' = .ok (t, c'')) :
+    apiStep ev { fs := fs, c := c } (.parse p {} ['w'] none) =
+      ({ fs := fs.set (resolveSpelled (parseTarget p [] none)) (.native t), c := c'' }, .data sd) := by
+  simp only [apiStep, hget, hread, writeTo, hwrite]
+
+theorem read_step (ev : Str → EvalResult) {fs : FS} {c c' : Counter} {p : Comps} {b : FileBody} {sd : SD}
+    (hget : fs.get (resolveSpelled p) = some b) (hread : readFile ev fs {} c p = .ok (.ok sd c')) :
+    apiStep ev { fs := fs, c := c } (.read p {}) = ({ fs := fs, c := c' }, .data sd) := by
+  simp only [apiStep, hget, hread]
+
+/-- writing the same content a second time leaves the file system as it is -/
+theorem set_set (fs : FS) (p : Comps) (b : FileBody) : (fs.set p b).set p b = fs.set p b := by
+  have hf : ∀ e : Comps × FileBody, (if ((if e.1 == p then (p, b) else e).1 == p) = true then (p, b)
+      else (if e.1 == p then (p, b) else e)) = (if e.1 == p then (p, b) else e) := by
+    intro e
+    by_cases he : (e.1 == p) = true
+    · simp [he]
+    · simp [he]
+  cases ha : fs.any (fun e => e.1 == p) with
+  | true =>
+    have h1 : fs.set p b = fs.map (fun e => if e.1 == p then (p, b) else e) := by simp [FS.set, ha]
+    have h2 : (fs.map (fun e => if e.1 == p then (p, b) else e)).any (fun e => e.1 == p) = true := by
+      rw [List.any_eq_true] at ha ⊢
+      obtain ⟨e, he, hk⟩ := ha
+      exact ⟨(p, b), List.mem_map.mpr ⟨e, he, by simp [hk]⟩, by simp⟩
+    rw [h1]
+    simp only [FS.set, h2, if_true, List.map_map]
+    exact List.map_congr_left fun e _ => hf e
+  | false =>
+    have h1 : fs.set p b = fs ++ [(p, b)] := by simp [FS.set, ha]
+    have h2 : (fs ++ [(p, b)]).any (fun e => e.1 == p) = true := by simp
+    rw [h1]
+    simp only [FS.set, h2, if_true, List.map_append, List.map_cons, List.map_nil, beq_self_eq_true]
+    congr 1
+    have : ∀ e ∈ fs, (e.1 == p) = false := by
+      intro e he
+      have := List.any_eq_false.mp ha e he
+      simpa using this
+    calc fs.map (fun e => if e.1 == p then (p, b) else e) = fs.map id :=
+          List.map_congr_left fun e he => by simp [this e he]
+      _ = fs := List.map_id _
+
+/-! ## property theorems -/
+
+/-- the entries of the including file itself -/
+def ownData (items : List IItem) : Entries := denSrcEs (plainIItems items) []
+
+/-- **the data of every read** (placeholder entries dropped): the file's own entries merged (`SDict.merge`: the receiver
+    wins) with the included files merged in the order of the directives -/
+def mergedData (items : List IItem) (incs : List (Str × IncDoc)) : Entries :=
+  mergeD true [] (ownData items) (tempOf incs)
+
+/-- the file `DictParser.parse(src)` writes: `parsed.<name>` next to the source -/
+abbrev tgtOf (src : Comps) : Comps := parseTarget src [] none
+
+/-- the text of `parsed.<name>` -/
+def parsedText (items : List IItem) (incs : List (Str × IncDoc)) : Str := textOf (namesOf items) (mergedData items incs)
+
+/-- **the hypotheses, without the condition on the file names**: a source file `src` in the file system `fs`, read from
+    counter `c`, whose text is an admissible layout (`GapsOKI`) of a document `items` with top-level `#include` directives
+    (`HWI`: the domain of `C12_read_included` and `C12_write_included`; no comments, no `$`); every file a directive names
+    exists in the folder of the source and is a plain comment-free well-formed document (`IncAt`) whose meaning lies in the
+    value domain of C01; `parsed.<name>` is a native-format path that is none of the included files; the merged dict has at
+    most `counterLimit + 1` quoted strings. -/
+structure SetupW (fs : FS) (src : Comps) (c : Counter) (items : List IItem) (gaps : List Str) (tail : Str)
+    (incs : List (Str × IncDoc)) : Prop where
+  hwi : HWI c items
+  layout : GapsOKI (itoksItems items) gaps tail = true
+  tailws : items = [] → tail.all isWs = true
+  nq : C02.countQuotedEs (plainIItems items) ≤ Gen.counterLimit + 1
+  docKeys : C02.DocKeysAbsent (plainIItems items)
+  srcGet : fs.get (resolveSpelled src) = some (.native (spreadC (itoksItems items) gaps tail))
+  srcNotXml : isXmlPath src = false
+  srcNotJson : isJsonPath src = false
+  srcNe : src ≠ []
+  incNames : namesOf items = incs.map (·.1)
+  incFiles : ∀ q ∈ incs, IncAt fs src.dropLast q.1 q.2
+  tgtNative : flavorOfPath (tgtOf src) = some .native
+  tgtFresh : ∀ q ∈ incs, resolveSpelled (spellJoin src.dropLast q.1) ≠ resolveSpelled (tgtOf src)
+  nqW : C02.countQuotedEs (srcOfEs .native (mergedData items incs)) ≤ Gen.counterLimit + 1
+
+/-- **the hypotheses of the theorems**: `SetupW`, and the directives name pairwise distinct files (as spelled).  Without
+    `namesnd` the written bytes do NOT stabilise after one cycle (`C03_included_bytes_statement_false`). -/
+structure Setup (fs : FS) (src : Comps) (c : Counter) (items : List IItem) (gaps : List Str) (tail : Str)
+    (incs : List (Str × IncDoc)) : Prop extends SetupW fs src c items gaps tail incs where
+  namesnd : (namesOf items).Nodup
+
+theorem docKeys_mergeDatas : ∀ (ds : List Entries) (t : Entries), (∀ d ∈ ds, C01.DocKeysAbsent' d) → C01.DocKeysAbsent' t →
+    C01.DocKeysAbsent' (mergeDatas ds t)
+  | [], _, _, ht => ht
+  | d :: ds, t, h, ht =>
+    docKeys_mergeDatas ds _ (fun d' hd' => h d' (List.mem_cons_of_mem _ hd')) (docKeys_mergeD [] true ht (h d List.mem_cons_self))
+
+namespace Setup
+variable {fs : FS} {src : Comps} {c : Counter} {items : List IItem} {gaps : List Str} {tail : Str}
+  {incs : List (Str × IncDoc)}
+
+theorem namesOK (S : Setup fs src c items gaps tail incs) : NamesOK (namesOf items) := by
+  have W := wiok_denI "".toList S.hwi
+  intro n hn
+  have hn' := hn
+  simp only [namesOf] at hn'
+  obtain ⟨q, hq, rfl⟩ := List.mem_map.mp hn'
+  exact ⟨(S.hwi.names q hq).1, (S.hwi.names q hq).2, (W.names _ hn).2⟩
+
+theorem namesRd (S : Setup fs src c items gaps tail incs) : NamesRd (namesOf items) := by
+  have hnames := wf_incl_names items 1 S.hwi.top S.hwi.wf
+  intro n hn
+  simp only [namesOf] at hn
+  obtain ⟨q, hq, rfl⟩ := List.mem_map.mp hn
+  refine ⟨(inclName_iff.mp (hnames q hq)).1, fun c hc => ?_⟩
+  have := quoteName_nobreak (hnames q hq) c
+  cases hq1 : q.1 with
+  | none => rw [hq1] at this; exact this hc
+  | some qq => rw [hq1] at this; exact this (by simp [quoteName, hc])
+
+theorem namesLen (S : Setup fs src c items gaps tail incs) : (namesOf items).length ≤ Gen.counterLimit + 1 := by
+  simp only [namesOf, List.length_map]; exact S.hwi.nIncl
+
+theorem ownWF (S : Setup fs src c items gaps tail incs) : SrcWFEs 1 (plainIItems items) = true :=
+  (label_top "".toList items 1 { c := { counter := c }, icounter := c } S.hwi.top S.hwi.wf).2.2.2.1
+
+theorem docKeysW (S : Setup fs src c items gaps tail incs) :
+    C02.DocKeysAbsent (srcOfEs .native (mergedData items incs)) := by
+  apply C09.docKeys_src
+  refine docKeys_mergeD [] true (C03.den_docKeys' S.ownWF S.docKeys) ?_
+  refine docKeys_mergeDatas _ _ ?_ (by intro e he; cases he)
+  intro d hd
+  obtain ⟨q, hq, rfl⟩ := List.mem_map.mp hd
+  exact C03.den_docKeys' (S.incFiles q hq).ok.wf (S.incFiles q hq).ok.docKeys
+
+theorem tgtPaths (S : Setup fs src c items gaps tail incs) :
+    isXmlPath (tgtOf src) = false ∧ isJsonPath (tgtOf src) = false := by
+  have h := S.tgtNative
+  unfold flavorOfPath at h
+  cases hj : isJsonPath (tgtOf src) <;> cases hx : isXmlPath (tgtOf src) <;> simp [hj, hx] at h ⊢
+
+theorem tgtDir (S : Setup fs src c items gaps tail incs) : (tgtOf src).dropLast = src.dropLast :=
+  C13api.parse_target_same_folder src [] none S.srcNe
+
+/-- parsing the parsed file targets the parsed file again -/
+theorem tgtFix (S : Setup fs src c items gaps tail incs) : tgtOf (tgtOf src) = tgtOf src := by
+  obtain ⟨dir, name, rfl⟩ : ∃ dir name, src = dir ++ [name] :=
+    ⟨src.dropLast, src.getLast S.srcNe, (List.dropLast_concat_getLast S.srcNe).symm⟩
+  show parseTarget (parseTarget (dir ++ [name]) [] none) [] none = parseTarget (dir ++ [name]) [] none
+  rw [C13api.parse_target_name, C13api.parse_target_name]
+  show dir ++ [targetName (targetName name (some "parsed".toList) [] none) (some "parsed".toList) [] none] = _
+  rw [C03.C03_parsed_name_none]
+  rfl
+
+/-- **the first read** -/
+theorem first_read (S : Setup fs src c items gaps tail incs) (ev : Str → EvalResult) :
+    ∃ R1 c2, C13.ValidCounter Gen.counterLimit c2 ∧ readFile ev fs {} c src = .ok (.ok R1 c2) ∧
+      RdOK R1 false (alloc Gen.counterLimit (inclsItems items).length c) (namesOf items) (mergedData items incs) := by
+  have hread := C12_read_included (pathStr src.dropLast) c S.hwi.wf S.layout S.tailws S.hwi.hc S.nq S.docKeys
+  have hv : C13.ValidCounter Gen.counterLimit
+      (C02.adv Gen.counterLimit (C02.countQuotedEs (plainIItems items)) (labelI (pathStr src.dropLast) c items).1.icounter) :=
+    C02.adv_valid _ (icounter_labelII _ _ _ (C02.adv_valid _ S.hwi.hc))
+  have h0 := (rd_first (pathStr src.dropLast) S.hwi S.namesnd).pathmap (fun e => pathStr (spellJoin src.dropLast e.file))
+  have hpf : parseFile fs true c src = .ok
+      ({ denI (pathStr src.dropLast) c items with
+          incl := (denI (pathStr src.dropLast) c items).incl.map fun e =>
+            (e.1, { e.2 with path := pathStr (spellJoin src.dropLast e.2.file) }) },
+        C02.adv Gen.counterLimit (C02.countQuotedEs (plainIItems items))
+          (labelI (pathStr src.dropLast) c items).1.icounter) := by
+    simp only [parseFile, S.srcNotXml, S.srcGet, S.srcNotJson, hread]
+    rfl
+  obtain ⟨c2, hv2, hrd, h1⟩ := readFile_rd ev h0 hpf hv S.incNames S.incFiles
+  exact ⟨_, c2, hv2, hrd, h1⟩
+
+/-- the file system after the first `parse` -/
+def fs' (fs : FS) (src : Comps) (items : List IItem) (incs : List (Str × IncDoc)) : FS :=
+  fs.set (resolveSpelled (tgtOf src)) (.native (parsedText items incs))
+
+theorem merged_idem (S : Setup fs src c items gaps tail incs) :
+    mergeD true [] (mergedData items incs) (tempOf incs) = mergedData items incs := by
+  obtain ⟨_, hd, hn⟩ := temp_ok S.incFiles
+  have := C01.norm_invariants hd
+  rw [hn] at this
+  exact C07.merge_idem_top [] (ownData items) (tempOf incs) this.2
+
+/-- **every later read**: the parsed file, read from any valid counter in the world after the first `parse` -/
+theorem later_read (S : Setup fs src c items gaps tail incs) (ev : Str → EvalResult) {c₂ : Counter}
+    (hc₂ : C13.ValidCounter Gen.counterLimit c₂) :
+    ∃ R2 c3, C13.ValidCounter Gen.counterLimit c3 ∧
+      readFile ev (fs' fs src items incs) {} c₂ (tgtOf src) = .ok (.ok R2 c3) ∧
+      RdOK R2 true (alloc Gen.counterLimit (namesOf items).length c₂) (namesOf items) (mergedData items incs) := by
+  obtain ⟨R1, _, _, _, h1⟩ := S.first_read ev
+  have hget : (fs' fs src items incs).get (resolveSpelled (tgtOf src)) = some (.native (parsedText items incs)) :=
+    C13api.get_set_self _ _ _
+  obtain ⟨s2, c1, hv1, hpf, h2⟩ := parse_written h1 S.namesOK S.namesRd hget S.tgtPaths.1 S.tgtPaths.2 S.nqW S.docKeysW
+    S.namesLen hc₂
+  have hall : ∀ q ∈ incs, IncAt (fs' fs src items incs) (tgtOf src).dropLast q.1 q.2 := by
+    intro q hq
+    rw [S.tgtDir]
+    exact { notXml := (S.incFiles q hq).notXml, notJson := (S.incFiles q hq).notJson, ok := (S.incFiles q hq).ok
+            get := by
+              show (fs.set _ _).get _ = _
+              rw [C13api.get_set_ne _ _ (S.tgtFresh q hq)]
+              exact (S.incFiles q hq).get }
+  obtain ⟨c3, hv3, hrd, h3⟩ := readFile_rd ev h2 hpf hv1 S.incNames hall
+  rw [S.merged_idem] at h3
+  exact ⟨_, c3, hv3, hrd, h3⟩
+
+end Setup
+
+section headline
+variable {fs : FS} {src : Comps} {c : Counter} {items : List IItem} {gaps : List Str} {tail : Str}
+  {incs : List (Str × IncDoc)}
+
+/-- what a caller can see of a returned SDict beyond placeholder ids: the entries without the placeholder entries, and
+    the files its include table names -/
+def Agrees (sd : SD) (D : Entries) (names : List Str) : Prop :=
+  C01.dropPhEntries sd.data = D ∧ sd.incl.map (·.2.file) = names
+
+theorem RdOK.agrees {s : SD} {hdr : Bool} {ids : List Nat} {names : List Str} {D : Entries} (h : RdOK s hdr ids names D) :
+    Agrees s D names := ⟨h.dropPh, h.tblFiles⟩
+
+/-- **C03_included_parse_reread.**  `DictParser.parse(src)` (mode `'w'`) completes and returns the first read `sd₁`; the
+    only change of the file system is `parsed.<name>` next to the source, which now holds `parsedText` (header, the
+    `#include` directives again, the MERGED entries); `DictReader.read(parsed.<name>)` then completes, merges the includes
+    a second time and returns `sd₂` with the same entries (placeholder entries dropped) and the same included files as
+    `sd₁`: the second merge changes nothing. -/
+theorem C03_included_parse_reread (S : Setup fs src c items gaps tail incs) (ev : Str → EvalResult) :
+    ∃ sd₁ c₁ sd₂ c₂,
+      apiStep ev { fs := fs, c := c } (.parse src {} ['w'] none) =
+        ({ fs := fs.set (resolveSpelled (tgtOf src)) (.native (parsedText items incs)), c := c₁ }, .data sd₁) ∧
+      apiStep ev { fs := fs.set (resolveSpelled (tgtOf src)) (.native (parsedText items incs)), c := c₁ }
+          (.read (tgtOf src) {}) =
+        ({ fs := fs.set (resolveSpelled (tgtOf src)) (.native (parsedText items incs)), c := c₂ }, .data sd₂) ∧
+      C01.dropPhEntries sd₂.data = C01.dropPhEntries sd₁.data ∧
+      sd₂.incl.map (·.2.file) = sd₁.incl.map (·.2.file) ∧
+      Agrees sd₁ (mergedData items incs) (namesOf items) := by
+  obtain ⟨R1, c1, hv1, hrd1, h1⟩ := S.first_read ev
+  obtain ⟨R2, c2, hv2, hrd2, h2⟩ := S.later_read ev hv1
+  have hw := writeText_rd ev fs h1 S.namesOK S.tgtNative c1
+  have hget : (Setup.fs' fs src items incs).get (resolveSpelled (tgtOf src)) = some (.native (parsedText items incs)) :=
+    C13api.get_set_self _ _ _
+  refine ⟨R1, c1, R2, c2, parse_step ev S.srcGet hrd1 hw, read_step ev hget hrd2, ?_, ?_, h1.agrees⟩
+  · rw [h2.dropPh, h1.dropPh]
+  · rw [h2.tblFiles, h1.tblFiles]
+
+/-- `n + 1` cycles: `parse(src)`, then `n` times `parse(parsed.<name>)` (which targets `parsed.<name>` again) -/
+def cycleOps (src : Comps) (n : Nat) : List ApiOp :=
+  .parse src {} ['w'] none :: List.replicate n (.parse (tgtOf src) {} ['w'] none)
+
+/-- the later cycles: in the world after the first `parse`, every further `parse(parsed.<name>)` returns the same data
+    and writes the same bytes (the file system does not change at all) -/
+theorem later_cycles (S : Setup fs src c items gaps tail incs) (ev : Str → EvalResult) : ∀ (k : Nat) {c₂ : Counter},
+    C13.ValidCounter Gen.counterLimit c₂ →
+    ∃ c₃ outs, C13.ValidCounter Gen.counterLimit c₃ ∧
+      apiRun ev { fs := Setup.fs' fs src items incs, c := c₂ } (List.replicate k (.parse (tgtOf src) {} ['w'] none)) =
+        ({ fs := Setup.fs' fs src items incs, c := c₃ }, outs) ∧
+      outs.length = k ∧ ∀ o ∈ outs, ∃ sd, o = .data sd ∧ Agrees sd (mergedData items incs) (namesOf items)
+  | 0, c₂, hc₂ => ⟨c₂, [], hc₂, rfl, rfl, fun _ h => by cases h⟩
+  | k + 1, c₂, hc₂ => by
+    obtain ⟨R2, c3, hv3, hrd, h2⟩ := S.later_read ev hc₂
+    have ht : flavorOfPath (parseTarget (tgtOf src) [] none) = some .native := by
+      show flavorOfPath (tgtOf (tgtOf src)) = _
+      rw [S.tgtFix]; exact S.tgtNative
+    have hw := writeText_rd ev (Setup.fs' fs src items incs) h2 S.namesOK ht c3
+    have hget : (Setup.fs' fs src items incs).get (resolveSpelled (tgtOf src)) = some (.native (parsedText items incs)) :=
+      C13api.get_set_self _ _ _
+    have hstep := parse_step ev hget hrd hw
+    have hfs : (Setup.fs' fs src items incs).set (resolveSpelled (parseTarget (tgtOf src) [] none))
+        (.native (textOf (namesOf items) (mergedData items incs))) = Setup.fs' fs src items incs := by
+      show (Setup.fs' fs src items incs).set (resolveSpelled (tgtOf (tgtOf src))) _ = _
+      rw [S.tgtFix]
+      exact set_set _ _ _
+    rw [hfs] at hstep
+    obtain ⟨c4, outs, hv4, hrun, hl, hall⟩ := later_cycles S ev k hv3
+    refine ⟨c4, .data R2 :: outs, hv4, ?_, by simp [hl], ?_⟩
+    · rw [List.replicate_succ, C13api.apiRun_cons, hstep, hrun]
+    · intro o ho
+      rcases List.mem_cons.mp ho with rfl | ho
+      · exact ⟨R2, rfl, h2.agrees⟩
+      · exact hall o ho
+
+/-- **C03_included_cycles.**  For every number `n + 1 ≥ 1` of cycles: every cycle completes and returns the data of the
+    first read (entries without placeholder entries: `mergedData`; the same included files), and a final
+    `DictReader.read(parsed.<name>)` returns them too.  The file system after any number of cycles is the one after the
+    first cycle. -/
+theorem C03_included_cycles (S : Setup fs src c items gaps tail incs) (ev : Str → EvalResult) (n : Nat) :
+    ∃ c₁ outs, C13.ValidCounter Gen.counterLimit c₁ ∧
+      apiRun ev { fs := fs, c := c } (cycleOps src n) =
+        ({ fs := fs.set (resolveSpelled (tgtOf src)) (.native (parsedText items incs)), c := c₁ }, outs) ∧
+      outs.length = n + 1 ∧
+      (∀ o ∈ outs, ∃ sd, o = .data sd ∧ Agrees sd (mergedData items incs) (namesOf items)) ∧
+      ∃ sdr c₂, apiStep ev { fs := fs.set (resolveSpelled (tgtOf src)) (.native (parsedText items incs)), c := c₁ }
+          (.read (tgtOf src) {}) =
+        ({ fs := fs.set (resolveSpelled (tgtOf src)) (.native (parsedText items incs)), c := c₂ }, .data sdr) ∧
+        Agrees sdr (mergedData items incs) (namesOf items) := by
+  obtain ⟨R1, c1, hv1, hrd1, h1⟩ := S.first_read ev
+  have hw := writeText_rd ev fs h1 S.namesOK S.tgtNative c1
+  have hstep := parse_step ev S.srcGet hrd1 hw
+  obtain ⟨c3, outs, hv3, hrun, hl, hall⟩ := later_cycles S ev n hv1
+  obtain ⟨R2, c4, hv4, hrd2, h2⟩ := S.later_read ev hv3
+  have hget : (Setup.fs' fs src items incs).get (resolveSpelled (tgtOf src)) = some (.native (parsedText items incs)) :=
+    C13api.get_set_self _ _ _
+  refine ⟨c3, .data R1 :: outs, hv3, ?_, by simp [hl], ?_, R2, c4, read_step ev hget hrd2, h2.agrees⟩
+  · rw [cycleOps, C13api.apiRun_cons, hstep]
+    exact congrArg (fun r : World × List ApiOut => (r.1, ApiOut.data R1 :: r.2)) hrun
+  · intro o ho
+    rcases List.mem_cons.mp ho with rfl | ho
+    · exact ⟨R1, rfl, h1.agrees⟩
+    · exact hall o ho
+
+/-- **C03_included_bytes.**  The text written in cycle 2 equals the text written in cycle 1 (flat includes, pairwise
+    distinct file names): both writes produce `parsedText items incs`. -/
+theorem C03_included_bytes (S : Setup fs src c items gaps tail incs) (ev : Str → EvalResult) :
+    ∃ sd₁ c₁ sd₂ c₂,
+      readFile ev fs {} c src = .ok (.ok sd₁ c₁) ∧
+      writeText ev fs (tgtOf src) ['w'] false (.sd sd₁) c₁ = .ok (parsedText items incs, c₁) ∧
+      readFile ev (fs.set (resolveSpelled (tgtOf src)) (.native (parsedText items incs))) {} c₁ (tgtOf src) =
+        .ok (.ok sd₂ c₂) ∧
+      writeText ev (fs.set (resolveSpelled (tgtOf src)) (.native (parsedText items incs))) (tgtOf (tgtOf src)) ['w'] false
+        (.sd sd₂) c₂ = .ok (parsedText items incs, c₂) := by
+  obtain ⟨R1, c1, hv1, hrd1, h1⟩ := S.first_read ev
+  obtain ⟨R2, c2, hv2, hrd2, h2⟩ := S.later_read ev hv1
+  have ht : flavorOfPath (tgtOf (tgtOf src)) = some .native := by rw [S.tgtFix]; exact S.tgtNative
+  exact ⟨R1, c1, R2, c2, hrd1, writeText_rd ev fs h1 S.namesOK S.tgtNative c1, hrd2,
+    writeText_rd ev _ h2 S.namesOK ht c2⟩
+
+/-- … and for every number of cycles the file system is the one after the first cycle -/
+theorem C03_included_bytes_cycles (S : Setup fs src c items gaps tail incs) (ev : Str → EvalResult) (n : Nat) :
+    (apiRun ev { fs := fs, c := c } (cycleOps src n)).1.fs = (apiRun ev { fs := fs, c := c } (cycleOps src 0)).1.fs := by
+  obtain ⟨_, _, _, h1, _⟩ := C03_included_cycles S ev n
+  obtain ⟨_, _, _, h0, _⟩ := C03_included_cycles S ev 0
+  rw [h1, h0]
+
+end headline
+
+/-! ## the statement without `namesnd`, and its refutation -/
+
+/-- the text of a native file of a world -/
+def textAt (w : World) (p : Comps) : Option Str :=
+  match w.fs.get p with
+  | some (.native t) => some t
+  | _ => none
+
+/-- the entries a history returned, placeholder entries dropped -/
+def dataOuts (outs : List ApiOut) : List (Option Entries) :=
+  outs.map fun o => match o with
+    | .data s => some (C01.dropPhEntries s.data)
+    | _ => none
+
+/-- the bytes claim on the whole domain `SetupW` (file names not required to be distinct): cycle 2 writes what cycle 1
+    wrote.  FALSE: `C03_included_bytes_statement_false`. -/
+def C03_included_bytes_statement : Prop :=
+  ∀ (fs : FS) (src : Comps) (c : Counter) (items : List IItem) (gaps : List Str) (tail : Str) (incs : List (Str × IncDoc)),
+    SetupW fs src c items gaps tail incs →
+    textAt (apiRun evalInt { fs := fs, c := c } (cycleOps src 1)).1 (resolveSpelled (tgtOf src)) =
+      textAt (apiRun evalInt { fs := fs, c := c } (cycleOps src 0)).1 (resolveSpelled (tgtOf src))
+
+/-- the data claim on the whole domain `SetupW`: every cycle returns the entries of the first read.  Proved under
+    `namesnd` (`C03_included_cycles`); on the witness of the refutation it holds too (`exDup_data`); not proved in general. -/
+def C03_included_data_statement : Prop :=
+  ∀ (fs : FS) (src : Comps) (c : Counter) (items : List IItem) (gaps : List Str) (tail : Str) (incs : List (Str × IncDoc))
+    (n : Nat), SetupW fs src c items gaps tail incs →
+    dataOuts (apiRun evalInt { fs := fs, c := c } (cycleOps src n)).2 =
+      List.replicate (n + 1) (some (mergedData items incs))
+
+/-! ## non-vacuity -/
+
+deriving instance DecidableEq for FileBody
+
+/-- `a 2; b 3;` -/
+def exInc : IncDoc :=
+  { es := [(['a'], .lit (.bare ['2'])), (['b'], .lit (.bare ['3']))], gaps := [[], [' '], [], [' '], [' '], []], tail := ['\n'] }
+
+theorem exInc_text : exInc.text = "a 2; b 3;\n".toList := by decide +kernel
+
+theorem exInc_ok : IncDocOK exInc where
+  wf := by decide +kernel
+  gaps := by decide +kernel
+  tail := by decide +kernel
+  nq := by decide +kernel
+  docKeys := by decide +kernel
+  dom := by decide +kernel
+
+def exSrc : Comps := ["w".toList, "case".toList]
+
+/-- `#include 'inc'`, `a 1;` -/
+def exItems : List IItem := [.incl (some '\'') "inc".toList, .entry ['a'] (.lit (.bare ['1']))]
+def exGaps : List Str := [[], ['\n'], [' '], []]
+
+theorem exToks : itoksItems exItems =
+    [.tok (.word "#include 'inc'".toList), .tok (.word ['a']), .tok (.word ['1']), .tok (.word [';'])] := by
+  have e1 : dirText (some '\'') "inc".toList = "#include 'inc'".toList := by decide
+  simp only [exItems, itoksItems, Lit.tok, e1, List.cons_append, List.nil_append]
+
+def exSrcText : Str := "#include 'inc'\na 1;\n".toList
+
+theorem exSrc_text : spreadC (itoksItems exItems) exGaps ['\n'] = exSrcText := by rw [exToks]; decide +kernel
+
+def exFs : FS := [(exSrc, .native exSrcText), (["w".toList, "inc".toList], .native exInc.text)]
+
+theorem exHWI : HWI none exItems where
+  wf := by decide +kernel
+  top := by decide +kernel
+  hc := Or.inl rfl
+  nIncl := by decide +kernel
+  dist := by decide +kernel
+  dom := by decide +kernel
+  names := by decide +kernel
+
+theorem exSetup : Setup exFs exSrc none exItems exGaps ['\n'] [("inc".toList, exInc)] where
+  hwi := exHWI
+  layout := by rw [exToks]; decide +kernel
+  tailws := fun h => by cases h
+  nq := by decide +kernel
+  docKeys := by decide +kernel
+  srcGet := by rw [exSrc_text]; decide +kernel
+  srcNotXml := by decide +kernel
+  srcNotJson := by decide +kernel
+  srcNe := by decide
+  incNames := by decide +kernel
+  incFiles := by
+    intro q hq
+    simp only [List.mem_singleton] at hq
+    subst hq
+    exact { notXml := by decide +kernel, notJson := by decide +kernel, get := by decide +kernel, ok := exInc_ok }
+  tgtNative := by decide +kernel
+  tgtFresh := by decide +kernel
+  nqW := by decide +kernel
+  namesnd := by decide +kernel
+
+/-- the merged entries of the example: the including file wins (`a = 1`), `b` comes from the included file -/
+theorem ex_merged : mergedData exItems [("inc".toList, exInc)] =
+    [(.str ['a'], .leaf (.int 1)), (.str ['b'], .leaf (.int 3))] := by decide +kernel
+
+/-- the parsed file of the example -/
+theorem ex_parsedText : parsedText exItems [("inc".toList, exInc)] =
+    nativeHeader ++ "#include inc\na                             1;\nb                             3;\n".toList := by
+  simp only [parsedText, textOf, ex_merged]
+  congr 1
+  decide +kernel
+
+/-- the theorems on the example -/
+theorem ex_parse_reread (ev : Str → EvalResult) := C03_included_parse_reread exSetup ev
+theorem ex_cycles (ev : Str → EvalResult) (n : Nat) := C03_included_cycles exSetup ev n
+theorem ex_bytes (ev : Str → EvalResult) := C03_included_bytes exSetup ev
+
+/-! ### the witness of the refutation: the same file included twice, once in single and once in double quotes -/
+
+/-- `#include 'x'`, `#include "x"`, `a 1;` -/
+def dupItems : List IItem := [.incl (some '\'') ['x'], .incl (some '"') ['x'], .entry ['a'] (.lit (.bare ['1']))]
+def dupGaps : List Str := [[], ['\n'], ['\n'], [' '], []]
+
+theorem dupToks : itoksItems dupItems =
+    [.tok (.word "#include 'x'".toList), .tok (.word "#include \"x\"".toList), .tok (.word ['a']), .tok (.word ['1']),
+     .tok (.word [';'])] := by
+  have e1 : dirText (some '\'') ['x'] = "#include 'x'".toList := by decide
+  have e2 : dirText (some '"') ['x'] = "#include \"x\"".toList := by decide
+  simp only [dupItems, itoksItems, Lit.tok, e1, e2, List.cons_append, List.nil_append]
+
+def dupSrcText : Str := "#include 'x'\n#include \"x\"\na 1;\n".toList
+
+theorem dupSrc_text : spreadC (itoksItems dupItems) dupGaps ['\n'] = dupSrcText := by rw [dupToks]; decide +kernel
+
+def dupFs : FS := [(exSrc, .native dupSrcText), (["w".toList, "x".toList], .native exInc.text)]
+def dupIncs : List (Str × IncDoc) := [(['x'], exInc), (['x'], exInc)]
+
+theorem dupSetupW : SetupW dupFs exSrc none dupItems dupGaps ['\n'] dupIncs where
+  hwi := ⟨by decide +kernel, by decide +kernel, Or.inl rfl, by decide +kernel, by decide +kernel, by decide +kernel,
+    by decide +kernel⟩
+  layout := by rw [dupToks]; decide +kernel
+  tailws := fun h => by cases h
+  nq := by decide +kernel
+  docKeys := by decide +kernel
+  srcGet := by rw [dupSrc_text]; decide +kernel
+  srcNotXml := by decide +kernel
+  srcNotJson := by decide +kernel
+  srcNe := by decide
+  incNames := by decide +kernel
+  incFiles := by
+    intro q hq
+    have : q = (['x'], exInc) := by
+      simp only [dupIncs, List.mem_cons, List.not_mem_nil, or_false, or_self] at hq; exact hq
+    subst this
+    exact { notXml := by decide +kernel, notJson := by decide +kernel, get := by decide +kernel, ok := exInc_ok }
+  tgtNative := by decide +kernel
+  tgtFresh := by decide +kernel
+  nqW := by decide +kernel
+
+/-- cycle 1 writes the directive twice (`#include x`, `#include x`: both spellings are written bare); on reading that
+    file `_clean` finds two include entries with the same table value and deletes one; cycle 2 writes the directive once -/
+theorem dup_texts :
+    textAt (apiRun evalInt { fs := dupFs, c := none } (cycleOps exSrc 0)).1 (resolveSpelled (tgtOf exSrc)) =
+      some (nativeHeader ++ "#include x\n#include x\na                             1;\nb                             3;\n".toList) ∧
+    textAt (apiRun evalInt { fs := dupFs, c := none } (cycleOps exSrc 1)).1 (resolveSpelled (tgtOf exSrc)) =
+      some (nativeHeader ++ "#include x\na                             1;\nb                             3;\n".toList) ∧
+    textAt (apiRun evalInt { fs := dupFs, c := none } (cycleOps exSrc 2)).1 (resolveSpelled (tgtOf exSrc)) =
+      some (nativeHeader ++ "#include x\na                             1;\nb                             3;\n".toList) := by
+  refine ⟨by decide +kernel, by decide +kernel, by decide +kernel⟩
+
+/-- **the bytes claim is false without `namesnd`** -/
+theorem C03_included_bytes_statement_false : ¬ C03_included_bytes_statement := by
+  intro h
+  have := h dupFs exSrc none dupItems dupGaps ['\n'] dupIncs dupSetupW
+  rw [dup_texts.1, dup_texts.2.1] at this
+  revert this
+  decide +kernel
+
+/-- … while the data are the same in every cycle on this witness too -/
+theorem exDup_data : dataOuts (apiRun evalInt { fs := dupFs, c := none } (cycleOps exSrc 2)).2 =
+    List.replicate 3 (some (mergedData dupItems dupIncs)) := by decide +kernel
 
 #check @RdOK.write
 #print axioms RdOK.write
